@@ -249,6 +249,12 @@ func c08Readers(r *Run) {
 }
 
 func c08ReaderTable(r *Run, fn *ssa.Function, key, trueVal, condType string) {
+	c08ReaderTableAs(r, "C08.R3", fn, key, trueVal, condType)
+}
+
+// c08ReaderTableAs records the reader table under the given rule id (C08.R3, and C06.R13 for the
+// canary readers).
+func c08ReaderTableAs(r *Run, rule string, fn *ssa.Function, key, trueVal, condType string) {
 	var ann *ssa.Parameter
 	for _, p := range fn.Params {
 		if p.Type().String() == "map[string]string" {
@@ -257,13 +263,13 @@ func c08ReaderTable(r *Run, fn *ssa.Function, key, trueVal, condType string) {
 	}
 	pos := r.Prog.Pos(fn.Pos())
 	if ann == nil {
-		r.Undecided("C08.R3", "reader table", pos, shortFunc(fn), "no annotations parameter")
+		r.Undecided(rule, "reader table", pos, shortFunc(fn), "no annotations parameter")
 		return
 	}
 	paths, k, ok := funcPaths(fn, 5000)
 	r.paths += len(paths)
 	if !ok {
-		r.Undecided("C08.R3", "reader table", pos, shortFunc(fn), "path cap exceeded")
+		r.Undecided(rule, "reader table", pos, shortFunc(fn), "path cap exceeded")
 		return
 	}
 	// matchers read a fact in the environment of the (possibly nested) helper it was found in
@@ -372,7 +378,7 @@ func c08ReaderTable(r *Run, fn *ssa.Function, key, trueVal, condType string) {
 	if condType != "" {
 		need += " or the replica set's " + condType + " condition is true"
 	}
-	r.Check("C08.R3", "reader table", pos, shortFunc(fn), need, okAll, detail)
+	r.Check(rule, "reader table", pos, shortFunc(fn), need, okAll, detail)
 }
 
 // c08StateTables implements R4.
